@@ -2498,6 +2498,14 @@ def _path_to_path_buf(I, info, args):
     return _mk_path(_path_str(I, args[0]))
 
 
+@path(('str', 'split_whitespace'), ('str', 'split_ascii_whitespace'))
+def _str_split_ws(I, info, args):
+    s = as_str(I, args[0])
+    if s.concrete():
+        return iter_values(I, [StrV(x) for x in s.s.split()])
+    raise Unsupported('symbolic str::split_whitespace')
+
+
 @path(('str', 'split'), ('str', 'rsplit'))
 def _str_split(I, info, args):
     s = as_str(I, args[0])
